@@ -1386,3 +1386,52 @@ def gen_cxt_lines():
 
 
 GENERATORS = GENERATORS + (('CxtLines', gen_cxt_lines),)
+
+
+# ---------------------------------------------------------------------------------------------------------------------
+
+def gen_table_dump():
+    """`formats.table.dump_file`: column widths, the `%-Ns|…|` template, header line and one line per object.
+    Reading of `'%-Ns' % s`: `s` left-justified to width N (`ljust`); `tmpl % tuple` fills the fields in order."""
+    tree = _src('formats', 'table.py')
+    fn = _function(tree, 'dump_file')
+    if [a.arg for a in fn.args.args] != ['file', 'objects', 'properties', 'bools'] or [a.arg for a in fn.args.kwonlyargs] != ['indent', '_serialized']:
+        raise Decline('table.dump_file: signature changed')
+    st = [ast.unparse(s) for s in _nodoc(fn.body)]
+    if len(st) != 6:
+        raise Decline('table.dump_file: expected six statements, got %d' % len(st))
+    # widths
+    if st[0] == 'wd = [tools.max_len(objects)]' and st[1] == 'wd.extend(map(len, properties))':
+        wd = '(objects.foldl (fun m o => max m o.length) 0) :: properties.map (·.length)'
+    else:
+        raise Decline('table.dump_file: the widths changed: %r' % st[:2])
+    ml = [ast.unparse(s) for s in _nodoc(_function(_src('tools.py'), 'max_len').body)]
+    if ml != ['try:\n    result = max(map(len, iterable))\nexcept ValueError:\n    return minimum', 'return max(result, minimum)']:
+        raise Decline('tools.max_len changed: %r' % ml)
+    if st[2] != "tmpl = ' ' * indent + '|'.join((f'%-{w:d}s' for w in wd)) + '|'":
+        raise Decline('table.dump_file: the template changed: %s' % st[2])
+    if st[3] != 'write = functools.partial(print, file=file)':
+        raise Decline('table.dump_file: %s' % st[3])
+    if st[4] != "write(tmpl % (('',) + tuple(properties)))":
+        raise Decline('table.dump_file: the header line changed: %s' % st[4])
+    import re
+    mt = re.fullmatch(r"for o, intent in zip\(objects, bools\):\n    write\(tmpl % \(\(o,\) \+ tuple\(\('(.*)' if b else '(.*)' for b in intent\)\)\)\)", st[5])
+    if not mt:
+        raise Decline('table.dump_file: the row loop changed: %s' % st[5])
+    yes, no = mt.group(1), mt.group(2)
+    return '\n'.join([
+        'import FCA.Model.Formats',
+        '/- GENERATED by harness/extract2.py from dump_file in concepts/formats/table.py — do not edit.',
+        "   `tmpl % cells` with `tmpl = ' ' * indent + '|'.join('%-Ns' …) + '|'` is read as: indent, the cells left-justified to their",
+        '   widths joined by `|`, a closing `|`; `print` appends a newline. -/',
+        'namespace FCA.Generated', '',
+        'def table_lines (indent : Nat) (objects properties : List Str) (bools : List (List Bool)) : List Str :=',
+        '  let wd := %s' % wd,
+        '  let tmpl := fun (cells : List Str) =>',
+        "    List.replicate indent ' ' ++ joinWith ['|'] ((wd.zip cells).map fun (w, c) => ljust w c) ++ ['|']",
+        '  tmpl ("".toList :: properties) ::',
+        '    (objects.zip bools).map fun (o, intent) => tmpl (o :: intent.map fun b => if b then "%s".toList else "%s".toList)' % (yes, no),
+        '', 'end FCA.Generated', ''])
+
+
+GENERATORS = GENERATORS + (('TableDump', gen_table_dump),)
